@@ -160,7 +160,7 @@ def reflow_documents(ck, m):
         if set(d['tags']) & {'setext-in-quote', 'lazy-after-indented-quote-content', 'table-on-marker-line', 'item-begins-with-blank-line',
                             'tab-stop-relative-to-container', 'lazy-after-nonpara'}:
             continue          # documents of a recorded finding (parser or Markdown renderer) do not mean what they say
-        if _CHARREF.search(d['src']) or 'title-like-word-after-definition' in d['tags']:
+        if _CHARREF.search(d['src']) or 'title-like-word-after-definition' in d['tags'] or 'word-that-starts-a-block' in d['tags']:
             continue          # a first word that reads as a link title once it stands alone on the line after a definition: the
                               # property sets aside words that mean something at the start of a line (class decided by the specification)
         if _TITLE_AFTER_DEF.search(d['src']):
